@@ -305,7 +305,10 @@ class C12(E2ECheck):
                                     f'prefixes), <=3 tags, capacity 1..3; '
                                     f'blocking scenarios (cap 1-2, 2-3 '
                                     f'acquirers, 1-2 tags): every schedule '
-                                    f'with <=2 preemptions',
+                                    f'with <=2 preemptions; the same '
+                                    f'scenarios with the first / the last '
+                                    f'acquirer non-blocking: every schedule '
+                                    f'with <=1 preemption',
                 'explanation': 'exhaustive: true refers to sub-domain (a)'}
 
 
